@@ -203,4 +203,21 @@ func TestC05(t *testing.T) {
 	r.Assume("roots have at least one legal move (terminal roots: C07); book off; hash 1 MB so that entries collide and age across the 1-4 searches of a case")
 	r.Assume("ponder searches carry a move time (ponderhit switches to time control); infinite/ponder searches are stopped by the controller")
 	hx.Sub(r, "searches", r.N(700, 6000), func(t *rapid.T) c05Case { return genC05(t, r.N(4, 6)) }, propC05)
+
+	// searches that are stopped inside their first iterations (tiny node budgets, stop at once) on tactical
+	// positions: the result then has to be assembled from an unfinished iteration
+	hx.Sub(r, "stopped-early", r.N(1500, 15000), func(t *rapid.T) c05Case {
+		c := c05Case{Settings: genSettings(t, hx.SearchBoolSwitches(), 70)}
+		p := rc.MustParse(hx.GenSeedFEN(t))
+		c.Play = hx.GenPlayoutFrom(t, p, 6, 1)
+		n := rapid.IntRange(1, 3).Draw(t, "searches")
+		for i := 0; i < n; i++ {
+			l := hx.LimSpec{Mode: "nodes", Nodes: rapid.IntRange(1, 120).Draw(t, "nodes"), StopAfterMs: -1, PonderHitAfterMs: -1}
+			if rapid.IntRange(0, 3).Draw(t, "inf") == 0 {
+				l = hx.LimSpec{Mode: "infinite", StopAfterMs: 0, PonderHitAfterMs: -1}
+			}
+			c.Searches = append(c.Searches, searchStep{AfterPlies: len(c.Play.Moves), Limits: l})
+		}
+		return c
+	}, propC05)
 }
